@@ -249,6 +249,9 @@ def run(ctx):
     idxspace.index_spaces(ctx)
     misc_guards.dof_counts(ctx)
     bcsupport.bc_support(ctx)
+    from . import c10
+
+    c10.bary_inherit(ctx)  # support and normal multipliers of the spaces that live on the barycentric grid
     dualasm.dual1_assembly(ctx)  # attachment of the DUAL1 dofs to their element / edges / vertices
     spaces.normal_multipliers(ctx)
     spaces.coefficient_maps(ctx)
